@@ -403,21 +403,16 @@ pub fn check(spec: &CheckSpec, tier: Tier) -> i32 {
             write_evidence(spec, tier, seed, &agg, wall, 1, total);
             return 1;
         }
-        // minimise here, in the parent: no other simulation shares the process
-        let (trace, final_rep, replays) =
-            minimise(spec, tier, rs, trace0.clone(), &v);
+        // minimise in a process of its own: no other simulation shares it, and
+        // a shrunken candidate that crashes the code under test kills only the
+        // minimiser, which is then restarted from the best trace so far
+        let (path, fv, n1, replays) =
+            minimise_in_child(spec, tier, seed, i, rs, &trace0, &v);
         println!(
             "minimised choice trace {} -> {} values in {replays} replays",
             trace0.len(),
-            trace.len()
+            n1
         );
-        let fv = final_rep
-            .violations
-            .iter()
-            .find(|x| x.property == v.property && x.clause == v.clause)
-            .cloned()
-            .unwrap_or(v.clone());
-        let path = write_replay(spec, tier, seed, i, rs, &trace, &final_rep, &fv);
         // confirm in a fresh process
         let out = std::process::Command::new(&exe)
             .arg("replay")
@@ -655,22 +650,56 @@ fn same_violation(rep: &RunReport, v: &Violation) -> bool {
         .any(|x| x.property == v.property && x.clause == v.clause)
 }
 
-/// Shrinks the choice trace while the same property and clause still fail
+fn trace_hash(t: &[u32]) -> u64 {
+    t.iter().fold(0x7ace, |h, v| mix(h, *v as u64))
+}
+
+fn write_trace(path: &std::path::Path, t: &[u32]) {
+    let tmp = path.with_extension("tmp");
+    if std::fs::write(&tmp, serde_json::to_string(t).unwrap()).is_ok() {
+        let _ = std::fs::rename(&tmp, path);
+    }
+}
+
+fn read_trace(path: &std::path::Path) -> Option<Vec<u32>> {
+    serde_json::from_str(&std::fs::read_to_string(path).ok()?).ok()
+}
+
+/// Shrinks the choice trace while the same property and clause still fail.
+/// Runs in a process of its own (`minimise_in_child`): a shrunken candidate
+/// may drive the code under test into a crash that the original run did not
+/// have.  `skip` holds the hashes of candidates that killed an earlier
+/// minimiser process; `progress` is a directory in which the candidate being
+/// tried (`trying.json`) and the best trace so far (`best.json`) are recorded.
 fn minimise(
     spec: &CheckSpec,
     tier: Tier,
     rs: u64,
     trace: Vec<u32>,
     v: &Violation,
+    skip: &BTreeSet<u64>,
+    progress: Option<&std::path::Path>,
+    budget_s: u64,
 ) -> (Vec<u32>, RunReport, u32) {
     let t0 = Instant::now();
     let mut replays = 0u32;
     let mut best = trace;
-    let budget = |replays: u32| replays < 6000 && t0.elapsed().as_secs() < 90;
-    let mut try_ = |cand: &Vec<u32>, replays: &mut u32| -> Option<RunReport> {
+    let budget = |replays: u32| replays < 6000 && t0.elapsed().as_secs() < budget_s;
+    let try_ = |cand: &Vec<u32>, replays: &mut u32| -> Option<RunReport> {
+        if skip.contains(&trace_hash(cand)) {
+            return None;
+        }
         *replays += 1;
+        if let Some(d) = progress {
+            write_trace(&d.join("trying.json"), cand);
+        }
         match one_run(spec, tier, rs, Some(cand.clone())) {
-            Ok(r) if same_violation(&r, v) => Some(r),
+            Ok(r) if same_violation(&r, v) => {
+                if let Some(d) = progress {
+                    write_trace(&d.join("best.json"), cand);
+                }
+                Some(r)
+            }
             _ => None,
         }
     };
@@ -805,6 +834,158 @@ fn minimise(
         best_rep = r;
     }
     (best, best_rep, replays)
+}
+
+/// Parent side of the out-of-process minimiser
+fn minimise_in_child(
+    spec: &CheckSpec,
+    tier: Tier,
+    seed: u64,
+    index: u64,
+    rs: u64,
+    trace0: &[u32],
+    v: &Violation,
+) -> (std::path::PathBuf, Violation, usize, u64) {
+    let dir = verif_root()
+        .join("sim")
+        .join("target")
+        .join(format!("minimise-{}", std::process::id()));
+    let _ = std::fs::remove_dir_all(&dir);
+    let _ = std::fs::create_dir_all(&dir);
+    let exe = std::env::current_exe().unwrap();
+    let mut skip: Vec<u64> = vec![];
+    let mut start: Vec<u32> = trace0.to_vec();
+    let mut replays = 0u64;
+    let t0 = Instant::now();
+    let mut result: Option<Value> = None;
+    for attempt in 0..16 {
+        let left = 100u64.saturating_sub(t0.elapsed().as_secs());
+        let job = json!({
+            "verif_seed": seed, "run_index": index, "run_seed": rs,
+            "trace": start, "property": v.property, "clause": v.clause,
+            "detail": v.detail, "skip": skip,
+            "budget_s": if attempt == 0 { 90 } else { left.min(90) },
+        });
+        let _ = std::fs::write(dir.join("job.json"), serde_json::to_string(&job).unwrap());
+        let _ = std::fs::remove_file(dir.join("result.json"));
+        let _ = std::fs::remove_file(dir.join("trying.json"));
+        let st = std::process::Command::new(&exe)
+            .args(["minimise", spec.prop, tier.name()])
+            .arg(&dir)
+            .env("VERIF_CHILD", "1")
+            .stdout(std::process::Stdio::null())
+            .stderr(std::process::Stdio::null())
+            .status();
+        if let Some(r) = std::fs::read_to_string(dir.join("result.json"))
+            .ok()
+            .and_then(|s| serde_json::from_str::<Value>(&s).ok())
+        {
+            replays += r["replays"].as_u64().unwrap_or(0);
+            result = Some(r);
+            break;
+        }
+        // the minimiser died: the candidate it was trying is not tried again
+        println!(
+            "minimiser process died ({st:?}) on a shrunken candidate; restarting from the best trace so far"
+        );
+        if let Some(t) = read_trace(&dir.join("trying.json")) {
+            skip.push(trace_hash(&t));
+        } else {
+            break;
+        }
+        if let Some(b) = read_trace(&dir.join("best.json")) {
+            start = b;
+        }
+        if left == 0 {
+            break;
+        }
+    }
+    let out = match result {
+        Some(r) => {
+            let fv = Violation {
+                property: v.property,
+                clause: r["clause"].as_str().unwrap_or(&v.clause).to_string(),
+                detail: r["detail"].as_str().unwrap_or(&v.detail).to_string(),
+            };
+            (
+                std::path::PathBuf::from(r["replay"].as_str().unwrap_or("")),
+                fv,
+                r["trace_len"].as_u64().unwrap_or(0) as usize,
+                replays,
+            )
+        }
+        None => {
+            // no minimiser survived: report the best trace known to fail,
+            // without re-executing it here
+            let mut rep = RunReport::default();
+            rep.sample = "unknown (every minimiser process died; the trace below is the shortest one known to fail)".into();
+            let path = write_replay(spec, tier, seed, index, rs, &start, &rep, v);
+            (path, v.clone(), start.len(), replays)
+        }
+    };
+    let _ = std::fs::remove_dir_all(&dir);
+    out
+}
+
+/// `fidget-sim minimise <prop> <tier> <dir>`: child side
+pub fn minimise_child(spec: &CheckSpec, tier: Tier, dir: &str) -> i32 {
+    let dir = std::path::PathBuf::from(dir);
+    let Some(job) = std::fs::read_to_string(dir.join("job.json"))
+        .ok()
+        .and_then(|s| serde_json::from_str::<Value>(&s).ok())
+    else {
+        return 2;
+    };
+    let v = Violation {
+        property: spec.prop,
+        clause: job["clause"].as_str().unwrap_or("").to_string(),
+        detail: job["detail"].as_str().unwrap_or("").to_string(),
+    };
+    let trace: Vec<u32> = job["trace"]
+        .as_array()
+        .map(|a| a.iter().map(|x| x.as_u64().unwrap_or(0) as u32).collect())
+        .unwrap_or_default();
+    let skip: BTreeSet<u64> = job["skip"]
+        .as_array()
+        .map(|a| a.iter().filter_map(|x| x.as_u64()).collect())
+        .unwrap_or_default();
+    let rs = job["run_seed"].as_u64().unwrap_or(0);
+    let (trace, final_rep, replays) = minimise(
+        spec,
+        tier,
+        rs,
+        trace,
+        &v,
+        &skip,
+        Some(&dir),
+        job["budget_s"].as_u64().unwrap_or(90),
+    );
+    let fv = final_rep
+        .violations
+        .iter()
+        .find(|x| x.property == v.property && x.clause == v.clause)
+        .cloned()
+        .unwrap_or(v.clone());
+    let path = write_replay(
+        spec,
+        tier,
+        job["verif_seed"].as_u64().unwrap_or(0),
+        job["run_index"].as_u64().unwrap_or(0),
+        rs,
+        &trace,
+        &final_rep,
+        &fv,
+    );
+    let out = json!({
+        "replay": path.display().to_string(), "trace_len": trace.len(), "replays": replays,
+        "property": fv.property, "clause": fv.clause, "detail": fv.detail,
+    });
+    let tmp = dir.join("result.tmp");
+    if std::fs::write(&tmp, serde_json::to_string(&out).unwrap()).is_ok() {
+        let _ = std::fs::rename(&tmp, dir.join("result.json"));
+    }
+    // a hung candidate leaves a stuck thread behind: leave without joining it
+    std::process::exit(0);
 }
 
 fn write_replay(
